@@ -252,6 +252,44 @@ class Interp:
 
     # ---- driver ---------------------------------------------------------------------------------
 
+    # ---- RefCell borrow state (only with track_borrows): a guard lives until the end of the statement that created it,
+    # or of the enclosing block when it is bound by `let g = x.borrow()`; `if`/`while` conditions drop theirs first
+    track_borrows = False
+
+    def b_reset(self):
+        self.bstate = {}
+        self.bframes = [[]]
+
+    def b_push(self):
+        if self.track_borrows:
+            self.bframes.append([])
+
+    def b_pop(self, keep_in_parent=False):
+        if not self.track_borrows:
+            return
+        fr = self.bframes.pop()
+        if keep_in_parent:
+            self.bframes[-1].extend(fr)
+            return
+        for key, kind in fr:
+            st = self.bstate[key]
+            st[1 if kind == "mut" else 0] -= 1
+
+    def b_borrow(self, obj, kind):
+        if not self.track_borrows or isinstance(obj, (int, float, str, bool, tuple)) or obj is None:
+            return
+        st = self.bstate.setdefault(id(obj), [0, 0])
+        if kind == "mut":
+            if st[0] or st[1]:
+                raise Panic("RefCell already %sborrowed (borrow_mut of %s)" % ("mutably " if st[1] else "", getattr(obj, "ty", type(obj).__name__)))
+            st[1] += 1
+        else:
+            if st[1]:
+                raise Panic("RefCell already mutably borrowed (borrow of %s)" % getattr(obj, "ty", type(obj).__name__))
+            st[0] += 1
+        self.bframes[-1].append((id(obj), kind))
+        self.b_keepalive.append(obj)
+
     def explore(self, thunk):
         """thunk(interp) runs the harness body once. -> list of dict(pc, kind, value|msg, notes)"""
         results = []
@@ -264,6 +302,8 @@ class Interp:
                 raise Unsupported("more than %d paths" % self.max_paths)
             ex = Exec(self, prefix)
             self.ex = ex
+            self.b_reset()
+            self.b_keepalive = []
             try:
                 v = thunk(self)
                 out = dict(kind="ret", value=v)
@@ -321,10 +361,26 @@ class Interp:
         env["__fn__"] = fn["name"]
         env["__ret__"] = fn.get("ret") or ""
         env["__self_ty__"] = (fn.get("self_ty") or "").split("<")[0].strip() or None
+        self.b_push()
         try:
-            return self.block(fn["body"], env)
-        except Return as r:
-            return r.value
+            try:
+                v = self.block(fn["body"], env)
+            except Return as r:
+                v = r.value
+        finally:
+            self.b_pop()
+        return self._ret_coerce(fn, v)
+
+    def _ret_coerce(self, fn, v):
+        """a struct value returned where the signature names a repo enum built from it (`Rc::new(x.into())`)"""
+        ret = (fn.get("ret") or "").replace("Self", fn.get("self_ty") or "Self")
+        if "XmlItem" not in ret:
+            return v
+        if isinstance(v, Enum) and v.ty == "Result" and v.variant == "Ok" and isinstance(v.fields[0], Obj):
+            v.fields[0] = self.coerce_into(v.fields[0], ret)
+        elif isinstance(v, Obj):
+            v = self.coerce_into(v, ret)
+        return v
 
     # ---- patterns ---------------------------------------------------------------------------------
 
@@ -429,6 +485,8 @@ class Interp:
         env = dict(env) if False else env
         last = UNIT
         stmts = b["stmts"]
+        if self.track_borrows:
+            return self._block_tracked(b, env)
         for k, st in enumerate(stmts):
             kind = st["k"]
             if kind == "let":
@@ -456,6 +514,51 @@ class Interp:
             else:
                 raise Unsupported("stmt %s" % kind)
         return last
+
+    def _block_tracked(self, b, env):
+        """block() with RefCell guard lifetimes: one frame per statement inside one frame for the block"""
+        self.b_push()
+        try:
+            last = UNIT
+            for st in b["stmts"]:
+                kind = st["k"]
+                self.b_push()
+                keep = False
+                try:
+                    if kind == "let":
+                        v = self.ev(st["init"], env) if st["init"] is not None else None
+                        if st["pat"]["k"] == "typed" and isinstance(v, Obj):
+                            v = self.coerce_into(v, st["pat"]["ty"])
+                        # `let g = x.borrow();` / `let g = &*x.borrow_mut();`: the guard is bound, it lives to the end of the block
+                        ie = st["init"]
+                        while ie is not None and ie["k"] in ("ref", "unary", "paren") and "e" in ie:
+                            ie = ie["e"]
+                        keep = ie is not None and ie["k"] == "mcall" and ie.get("method") in ("borrow", "borrow_mut")
+                        if st["else"] is not None:
+                            e2 = dict(env)
+                            if self.match(st["pat"], v, e2):
+                                env.update(e2)
+                            else:
+                                self.ev(st["else"], env)
+                                raise Unsupported("let-else fell through")
+                        elif v is not None or st["init"] is not None:
+                            self.bind(st["pat"], v, env)
+                        last = UNIT
+                    elif kind == "expr":
+                        v = self.ev(st["e"], env)
+                        last = UNIT if st["semi"] else v
+                    elif kind == "item_fn":
+                        env[st["fn"]["name"]] = FnRef(env.get("__file__"), st["fn"])
+                        last = UNIT
+                    elif kind == "item":
+                        last = UNIT
+                    else:
+                        raise Unsupported("stmt %s" % kind)
+                finally:
+                    self.b_pop(keep_in_parent=keep)
+            return last
+        finally:
+            self.b_pop()
 
     def ev(self, e, env):
         k = e["k"]
@@ -539,7 +642,11 @@ class Interp:
             v = self.ev(c["expr"], env)
             taken = self.match(c["pat"], v, env2)
         else:
-            taken = self.truth(self.ev(c, env))
+            self.b_push()
+            try:
+                taken = self.truth(self.ev(c, env))
+            finally:
+                self.b_pop()
         if taken:
             r = self.block(e["then"], env2)
             self._writeback(env, env2)
@@ -719,8 +826,14 @@ class Interp:
             if c["k"] == "letcond":
                 if not self.match(c["pat"], self.ev(c["expr"], env), env2):
                     break
-            elif not self.truth(self.ev(c, env)):
-                break
+            else:
+                self.b_push()
+                try:
+                    go = self.truth(self.ev(c, env))
+                finally:
+                    self.b_pop()
+                if not go:
+                    break
             try:
                 self.block(e["body"], env2)
             except Break:
